@@ -209,33 +209,35 @@ def step (st : St) (ts : List String) : St × String :=
         let geo : Geo Unit Vec := fun _ _ _ _ => (gret, g, ())
         pure ("r= " ++ showOptVec (interpolate A Am geo () a b t).1)
       | _ => none
-    | ["cm1", sat, hasG, gret] => do
+    | ["cm1", valid, sat, hasG, gret] => do
       -- σ = number of geodesic calls made; the answers are the recorded ones
+      let valid ← parseBool? valid
       let sat ← parseBool? sat
       let _hasG ← parseBool? hasG
       let gret ← parseBool? gret
       let geo : Geo Nat Unit := fun c _ _ _ => (gret, [], c + 1)
-      let r := checkMotion1 (fun c _ => (sat, c)) geo 0 () ()
+      let r := checkMotion1 (fun c _ => (valid, c)) (fun c _ => (sat, c)) geo 0 () ()
       pure s!"v={b01 r.1} geoCalled={r.2}"
     | "cm1p" :: rest => do
       let (a, rest) ← takeVec n rest
       let (b, rest) ← takeVec n rest
       let evs ← parseEvs n st.m rest #[]
-      let r := checkMotion1 isSat pgeo ⟨evs, false⟩ a b
+      let r := checkMotion1 O.valid isSat pgeo ⟨evs, false⟩ a b
       pure (s!"v={b01 r.1}" ++ tail r.2)
     | "cm2" :: hf :: rest => do
       let hf ← parseBool? hf
       let (a, rest) ← takeVec n rest
       let (b, rest) ← takeVec n rest
       match rest with
-      | sat :: gret :: k :: rest => do
+      | sat :: valid :: gret :: k :: rest => do
         let sat ← parseBool? sat
+        let valid ← parseBool? valid
         let gret ← parseBool? gret
         let k ← k.toNat?
         let (g, rest) ← takeVecs n k rest
         if !rest.isEmpty then none
         let geo : Geo Unit Vec := fun _ _ _ _ => (gret, g, ())
-        let r := checkMotion2 A Am (fun _ _ => (sat, ())) geo hf () a b
+        let r := checkMotion2 A Am (fun _ _ => (sat, ())) (fun _ _ => (valid, ())) geo hf () a b
         pure s!"v={b01 r.verdict} first= {showOptVec r.first} second={showOptF r.second}"
       | _ => none
     | "cm2p" :: hf :: rest => do
@@ -243,7 +245,7 @@ def step (st : St) (ts : List String) : St × String :=
       let (a, rest) ← takeVec n rest
       let (b, rest) ← takeVec n rest
       let evs ← parseEvs n st.m rest #[]
-      let r := checkMotion2 A Am isSat pgeo hf ⟨evs, false⟩ a b
+      let r := checkMotion2 A Am isSat O.valid pgeo hf ⟨evs, false⟩ a b
       pure (s!"v={b01 r.verdict} first= {showOptVec r.first} second={showOptF r.second}" ++ tail r.st)
     | _ => none
   match r with
